@@ -255,7 +255,7 @@ func oracleC14(scn c14Scenario, rec *c14Rec) mc.Result {
 			continue
 		}
 		switch name {
-		case "info", "exists", "hgetall", "hget", "zrangebyscore", "command", "hsetnx":
+		case "info", "exists", "hgetall", "hget", "zrangebyscore", "command", "hsetnx", "cluster", "asking":
 			continue
 		}
 		ui := unitOf(r)
@@ -418,6 +418,20 @@ func runC14(t *testing.T, rep *mc.Reporter) {
 		rep.Machinery("cannot load replay: "+err.Error(), nil)
 		return
 	} else if rp != nil {
+		var cs c14cScenario
+		if err := json.Unmarshal(rp.Scenario, &cs); err == nil && cs.Cluster {
+			view := c14Scenario{Cfg: biCfg{"cluster-parallel", 2}, MaxCrashes: cs.MaxCrashes, Idle: cs.Idle}
+			for _, l := range cs.Lanes {
+				view.Syms = append(view.Syms, fmt.Sprintf("lane%d", l))
+			}
+			rec, mach := c14cExec(t, cs, mc.NewChooser(rp.Choices))
+			if mach != "" {
+				rep.Exec(cs, rp.Choices, mc.Result{Verdict: "machinery", Clause: mach})
+				return
+			}
+			rep.Exec(cs, rp.Choices, oracleC14(view, &rec))
+			return
+		}
 		var scn c14Scenario
 		if err := json.Unmarshal(rp.Scenario, &scn); err != nil {
 			rep.Machinery("bad replay scenario: "+err.Error(), nil)
@@ -448,6 +462,31 @@ func runC14(t *testing.T, rep *mc.Reporter) {
 		}
 	}
 	idx := 0
+	// ---- cluster variant: two parallel lanes, completion order across lanes is explored
+	laneSeqs := [][]int{{0, 1}, {1, 0, 1}}
+	cbound, ccrashes := 1, 1
+	if tier == "thorough" {
+		laneSeqs = append(laneSeqs, []int{0, 1, 0}, []int{0, 0, 1}, []int{0, 1, 1, 0})
+		cbound, ccrashes = 2, 1
+	}
+	for _, ls := range laneSeqs {
+		idx++
+		if idx%nshards != shard || budget.Expired() {
+			continue
+		}
+		cscn := c14cScenario{Lanes: ls, Cfg: biCfg{"parallel", 2}, MaxCrashes: ccrashes, Idle: 1, Cluster: true}
+		view := c14Scenario{Cfg: biCfg{"cluster-parallel", 2}, MaxCrashes: ccrashes, Idle: 1}
+		for _, l := range ls {
+			view.Syms = append(view.Syms, fmt.Sprintf("lane%d", l))
+		}
+		mc.RunScenario(rep, cscn, cbound, budget, func(ch *mc.Chooser) mc.Result {
+			rec, mach := c14cExec(t, cscn, ch)
+			if mach != "" {
+				return mc.Result{Verdict: "machinery", Clause: mach}
+			}
+			return oracleC14(view, &rec)
+		})
+	}
 	for _, pl := range plans {
 		pl := pl
 		enumSeqs(pl.alpha, pl.L, func(seq []string) {
